@@ -42,6 +42,10 @@ def odml_tuple_import(t_count, new_value):
                 for tuple_val in n_val:
                     n_val_str += str(tuple_val) + "; "
                 return_value += [n_val_str[:-2] + ")"]
+            else:
+                # Never drop an individual value: leave the whole input
+                # to the dtype validation of the caller.
+                return new_value
         else:
             cln = n_val.strip()
             br_check = cln.count("(") == cln.count(")")
@@ -54,6 +58,10 @@ def odml_tuple_import(t_count, new_value):
                     return_value = cln[1:-1].split(",")
             elif br_check and sep_check:
                 return_value += [cln]
+            else:
+                # Never drop an individual value: leave the whole input
+                # to the dtype validation of the caller.
+                return new_value
 
     if not return_value:
         return_value = new_value
